@@ -643,6 +643,55 @@ def directed(rng):
     return cases
 
 
+STALL_DOC = """the writer is stalled while the thread owns >= 4 buffers of which the upper ones were written
+once, re-used and filled again (flag WRITTEN|RECORDING, REC_END sent, still waiting for the writer) and the
+thread switches to a low index.  The "shrink unused buffers" block must not take the pending ones for unused
+(flag == WRITTEN, not flag & WRITTEN): it would unmap the last one, forget it (nr_buf--), and the next allocation
+would re-create the shm object with O_TRUNC and zero the pending records"""
+
+
+def stall_directed(rng, per):
+    """ring of 4; per = 1 or 2 records per buffer (a leaf call = 2 records)"""
+    g = Gen(rng, 1)
+    lv = (lambda n: [g.leaf(0) for _ in range(n)])
+    if per == 1:
+        lv(2)                                           # r1..r4: buffers 0,1,2 full, 3 current
+        g.ops += [("DRAIN",)] + [("W", 0)] * 4          # 0,1,2 written: WRITTEN
+        lv(1)                                           # r5: END 3, re-use 0; r6: END 0, re-use 1
+        g.ops += [("DRAIN",)] + [("W", 0)] * 2          # the writer takes 3 and 0, writes 3
+        lv(1)                                           # r7: re-use 2; r8: re-use 3
+        g.ops += [("W", 0)]                             # 0 written: 0 free, 1,2 pending (WRITTEN|RECORDING), 3 current
+        lv(1)                                           # r9: END 3, switch to 0 with 1,2,3 pending above: the shrink test
+        lv(2)                                           # r10..: 0 full, nothing free: the ring must grow at index 4 (3 if it shrank)
+    else:
+        lv(4)                                           # buffers 0..3 full, 3 current
+        g.ops += [("DRAIN",)] + [("W", 0)] * 4
+        lv(1)                                           # END 3, re-use 0
+        g.ops += [("DRAIN",)] + [("W", 0)] * 2          # 3 written
+        lv(3)                                           # re-use 1, 2, 3: 0,1,2 pending
+        g.ops += [("DRAIN",)] + [("W", 0)] * 2          # writer takes 0,1,2 and writes only 0: stalled
+        lv(1)                                           # END 3, switch to 0 with 1,2,3 pending above: the shrink test
+        lv(2)                                           # nothing free: grow
+    return {"bufsize": 16 + 16 * per, "nw": 1, "nt": 1, "ops": g.finish(nw=1), "kind": "stalled-writer-reuse",
+            "args": None, "tags": ["per-buffer=%d" % per, "stalled-writer", "ring=4"]}
+
+
+def gen_stall(rng, big=False):
+    """one thread, small buffers, the writer runs in rare short bursts: rings of 4-8 buffers in every mixture of
+    WRITTEN / RECORDING / WRITTEN|RECORDING while the thread wraps around to low indexes"""
+    per = rng.choice([1, 1, 2, 2, 3])
+    g = Gen(rng, 1)
+    g.leaf(0)
+    for _ in range(rng.choice([14, 20, 28]) * (2 if big else 1)):
+        for _ in range(rng.randrange(1, 2 + 2 * per)):
+            g.leaf(0)
+        if rng.random() < 0.8:
+            g.ops.append(("DRAIN",))
+        g.ops += [("W", 0)] * rng.choice([0, 1, 2, 2, 3, 4, 6])
+    return {"bufsize": 16 + 16 * per, "nw": 1, "nt": 1, "ops": g.finish(nw=1), "kind": "stalled-writer-random",
+            "args": None, "tags": ["per-buffer=%d" % per, "stalled-writer"]}
+
+
 def tail_loss_case(rng):
     """allocation refused on the LAST request: the dropped records are never reported (witness of the
     refuted theorem C03_lost_tail_unreported_refuted)"""
@@ -696,6 +745,12 @@ def observed_tags(case, res):
                 tags.add("loss-pending")
             if s[i + 1] == 1 and nb >= 2 and (s[i + 3 + 2] & 4):
                 tags.add("curr=0,buf1-RECORDING")
+            c = s[i + 1] - 1
+            if c >= 0 and c + 3 <= nb:
+                above = [s[i + 3 + 2 * q] for q in range(c + 1, nb)]
+                if sum(1 for f in above if f & 2) >= 3 and (above[-1] & 2) and \
+                        not (sum(1 for f in above if f == 2) >= 3 and above[-1] == 2):
+                    tags.add("shrink-test:pending(WRITTEN|RECORDING)-buffers-above-curr")
             i += 3 + 2 * nb
         i += 1      # 4242
         nshl = s[i]
@@ -1031,11 +1086,14 @@ def run(ctx):
     rng = ctx.rng
     cases = []
     cases += directed(rng)
+    cases += [stall_directed(rng, 1), stall_directed(rng, 2)]
+    for _ in range(ctx.n(4, 24)):
+        cases.append(gen_stall(rng))
     tl = tail_loss_case(rng)
     cases.append(tl)
-    for _ in range(ctx.n(28, 200)):
+    for _ in range(ctx.n(24, 140)):
         cases.append(gen_random(rng, big=ctx.thorough()))
-    for _ in range(ctx.n(10, 70)):
+    for _ in range(ctx.n(10, 50)):
         cases.append(gen_soak(rng, big=ctx.thorough()))
     results = []
     kept = []
